@@ -823,5 +823,54 @@ class EveryCasedLetter(Part):
         return res
 
 
+class ReservedValuesOfEveryShape(Part):
+    name = "reserved_secret_values_of_every_format_class"
+    desc = ("every built-in reserved word that reads as a number or as hexadecimal (all of them, found by scanning the list), "
+            "and user additions shaped like a number, hex, a type-7 string and a hash, as the secret value of every "
+            "one-slot form: left as is")
+
+    USER = ["cafe", "2024", "0822455D0A16", "AB12", "$1$abcd$Xy7"]
+
+    def __init__(self, tier, seed):
+        self.tier, self.seed = tier, seed
+
+    def cases(self):
+        forms = [f for f in secdom.catalogue() if not f["scrub"] and f["slots"] == 1 and "{S}" in f["template"]]
+        return [{"form": f["id"]} for f in forms[:: (2 if self.tier == "quick" else 1)]]
+
+    def run(self, case):
+        from netconan.anonymize_files import FileAnonymizer
+
+        res = Res()
+        f = [x for x in secdom.catalogue() if x["id"] == case["form"]][0]
+        shaped = sorted(w for w in builtin_reserved() if re.fullmatch(r"[0-9a-fA-F]+", w))
+        res.states = len(shaped) + len(self.USER)
+        vals = [(w, None) for w in shaped] + [(w, w) for w in self.USER]
+        if "val" in case:
+            vals = [v for v in vals if v[0] == case["val"]]
+        for val, user in vals:
+            if '"{S}"' not in f["template"] and val.startswith("$") and "[^" in f["regex"]:
+                pass
+            line = secdom.fill(f["template"], [val])
+            res.evals += 1
+            try:
+                with seams.capture_logs():
+                    fa = FileAnonymizer(anon_pwd=True, anon_ip=False, salt="saltForTest", reserved_words=[user] if user else None)
+                    out = io.StringIO()
+                    fa.anonymize_io(io.StringIO("password someOtherSecret\n" + line + "\n"), out)
+            finally:
+                seams.restore_globals()
+            g = out.getvalue().rstrip("\n").split("\n")[-1]
+            res.nt((f["id"], val))
+            res.out(g == line)
+            if val not in g.replace('"', " ").replace(";", " ").split():
+                res.violation("reserved-secret-value-changed|%s|%s" % ("user-addition" if user else "built-in",
+                                                                      "digits" if val.isdigit() else "hex-or-other"),
+                              "form %s: %r -> %r" % (f["id"], line, g), dict(case, val=val))
+        if "val" not in case:
+            res.samples.append({"form": f["template"], "built_in_values": len(shaped), "examples": shaped[:6]})
+        return res
+
+
 def parts(tier, seed):
-    return [ListsPart(tier, seed), SecretsPart(tier, seed), SeedPart(tier, seed), HistoryPart(tier, seed), OwnOutputWords(tier, seed), SecondAnonymizer(tier, seed), HashCollisions(tier, seed), ScrubbedLines(tier, seed), WithOtherOptions(tier, seed), Separators(tier, seed), PunctuatedWords(tier, seed), EveryCasedLetter(tier, seed)]
+    return [ListsPart(tier, seed), SecretsPart(tier, seed), SeedPart(tier, seed), HistoryPart(tier, seed), OwnOutputWords(tier, seed), SecondAnonymizer(tier, seed), HashCollisions(tier, seed), ScrubbedLines(tier, seed), WithOtherOptions(tier, seed), Separators(tier, seed), PunctuatedWords(tier, seed), EveryCasedLetter(tier, seed), ReservedValuesOfEveryShape(tier, seed)]
